@@ -188,9 +188,12 @@ class IndexedData(BaseCartesianData, HubListener):
         kwargs['view'] = self._to_original_view(kwargs.get('view'))
         return self._original_data.compute_statistic(statistic, cid, **kwargs)
 
-    def compute_histogram(self, *args, **kwargs):
+    def compute_histogram(self, cids, weights=None, **kwargs):
+        cids = [self._translate_cid(cid) for cid in cids]
+        if weights is not None:
+            weights = self._translate_cid(weights)
         if kwargs.get('subset_state') is None:
             kwargs['subset_state'] = self._indices_subset_state
         else:
             kwargs['subset_state'] &= self._indices_subset_state
-        return self._original_data.compute_histogram(*args, **kwargs)
+        return self._original_data.compute_histogram(cids, weights=weights, **kwargs)
